@@ -32,6 +32,8 @@ fn alphabet() -> Vec<Op> {
         Op::IntoOwned,
         Op::Clone,
         Op::Measure,
+        Op::CloneFrom(0),
+        Op::CloneFrom(1),
     ]
 }
 
